@@ -3,6 +3,7 @@ package c11
 import (
 	"encoding/json"
 	"fmt"
+	"strings"
 	"time"
 
 	"github.com/pion/interceptor/verifh/hk"
@@ -49,7 +50,7 @@ func rbody(c rscen, ctx *hk.Ctx) {
 		_ = h.SetExtension(hk.TwccExtID, []byte{0, 200})
 		_, _, _ = rm.ReadRTP(hk.MarshalRTP(h, p))
 	}
-	closeSeq := -1
+	closeSeq, closeSeq2 := -1, -1
 	var ths []*vsched.Thread
 	ths = append(ths, vsched.GoApp("traffic", func() {
 		for n := 0; n < 2; n++ {
@@ -72,9 +73,18 @@ func rbody(c rscen, ctx *hk.Ctx) {
 			}
 		}
 	}))
+	if c.Life == "close2" {
+		// a second Close from another goroutine. Whether Close may be repeated is left open (io.Closer); what is
+		// demanded is only that a Close call that returns does so after the interceptor's goroutines have
+		// stopped writing - also when another Close is still waiting for them
+		ths = append(ths, vsched.GoApp("lifecycle-2", func() {
+			_ = s.I.Close()
+			closeSeq2 = s.T.SeqNow()
+		}))
+	}
 	ths = append(ths, vsched.GoApp("lifecycle", func() {
 		switch c.Life {
-		case "close":
+		case "close", "close2":
 			_ = s.I.Close()
 			closeSeq = s.T.SeqNow()
 		case "unbind":
@@ -89,7 +99,7 @@ func rbody(c rscen, ctx *hk.Ctx) {
 	for _, t := range ths {
 		t.Join()
 	}
-	if c.Life != "close" {
+	if c.Life != "close" && c.Life != "close2" {
 		_ = s.I.Close()
 		closeSeq = s.T.SeqNow()
 	}
@@ -97,6 +107,9 @@ func rbody(c rscen, ctx *hk.Ctx) {
 	vsched.AcquireFinished()
 	if ctx.Failed() {
 		return
+	}
+	if closeSeq2 >= 0 && closeSeq2 < closeSeq {
+		closeSeq = closeSeq2 // the Close call that returned first
 	}
 	late := 0
 	for _, r := range s.T.RTCP {
@@ -144,6 +157,10 @@ func rscenarios(tier string) []rscen {
 		if len(traffic) > 0 {
 			out = append(out, rscen{Kind: k.Name, Traffic: traffic[0], Life: "unbind", Horizon: h, Bound: b})
 		}
+		if h > 0 && !strings.HasPrefix(k.Name, "cc-gcc") && k.Name != "pacing" {
+			// interceptors with goroutines of their own whose Close tolerates being called again
+			out = append(out, rscen{Kind: k.Name, Traffic: traffic[len(traffic)-1], Life: "close2", Horizon: h, Bound: b})
+		}
 	}
 	return out
 }
@@ -155,7 +172,7 @@ func rscenario(c rscen) *hk.Scenario {
 func init() {
 	hk.Register(&hk.Check{
 		ID:          "C11R",
-		Rule:        "E1 schedule exploration (-race): for every interceptor, a traffic thread (two writes, two reads or two RTCP reads) || a lifecycle thread issuing Close (or Unbind followed by Close) plus up to two timer firings; oracle: no call deadlocks or panics, no goroutine of the interceptor survives Close, nothing is written to the transport by the interceptor's goroutines after Close has returned; every schedule is non-trivial",
+		Rule:        "E1 schedule exploration (-race): for every interceptor, a traffic thread (two writes, two reads or two RTCP reads) || a lifecycle thread issuing Close (or Unbind followed by Close; for interceptors with timers whose Close tolerates repetition also two threads issuing Close) plus up to two timer firings; oracle: no call deadlocks or panics, no goroutine of the interceptor survives Close, nothing is written to the transport by the interceptor's goroutines after Close has returned; every schedule is non-trivial",
 		Assumptions: []string{"vsched model and race annotations (litmus suite)"},
 		Jobs: func(tier string) []string {
 			var n []string
